@@ -52,6 +52,8 @@ type mainIn struct {
 	Strip    string    `json:"strip"`
 	Wire     []wireHdr `json:"wire"`
 	Host     string    `json:"host"`
+	Interim  bool      `json:"interim"` // the upstream sends 103 Early Hints before the final response
+	V6       bool      `json:"v6"` // connect over IPv6 loopback when the machine has it (the listeners are bound to all addresses)
 	H2       bool      `json:"h2"` // speak HTTP/2 to the TLS listener (its certificate source offers h2)
 }
 
@@ -306,8 +308,9 @@ func startFabio(opts []optIn, upstream string) (*fabioProc, error) {
 		}
 		p := &fabioProc{plain: fmt.Sprintf("127.0.0.1:%d", ports[0]), secure: fmt.Sprintf("127.0.0.1:%d", ports[1]),
 			sni: fmt.Sprintf("127.0.0.1:%d", ports[3])}
+		anyAddr := func(a string) string { return a[strings.LastIndexByte(a, ':'):] } // ":port": every address, IPv4 and IPv6
 		args := []string{"-insecure", "-registry.backend=static", "-registry.static.routes=" + routes.String(),
-			"-proxy.addr=" + p.plain + ";proto=http," + p.secure + ";proto=https;cs=lst," + p.sni + ";proto=https+tcp+sni;cs=lst",
+			"-proxy.addr=" + anyAddr(p.plain) + ";proto=http," + anyAddr(p.secure) + ";proto=https;cs=lst," + anyAddr(p.sni) + ";proto=https+tcp+sni;cs=lst",
 			"-proxy.cs=cs=lst;type=file;cert=" + cert + ";key=" + key,
 			fmt.Sprintf("-ui.addr=127.0.0.1:%d", ports[2]), "-log.level=WARN", "-proxy.shutdownwait=0s"}
 		env := []string{}
@@ -448,6 +451,30 @@ func procFor(opts []optIn, upstream string) (*fabioProc, error) {
 	return p, nil
 }
 
+var (
+	v6Once sync.Once
+	v6OK   bool
+)
+
+// haveV6 reports whether this machine has an IPv6 loopback address to connect from.
+func haveV6() bool {
+	v6Once.Do(func() {
+		if l, err := net.Listen("tcp6", "[::1]:0"); err == nil {
+			l.Close()
+			v6OK = true
+		}
+	})
+	return v6OK
+}
+
+// dialAddr is the listener's address as the client dials it: 127.0.0.1:port, or [::1]:port for an IPv6 client.
+func dialAddr(a string, v6 bool) string {
+	if v6 && haveV6() {
+		return "[::1]" + a[strings.LastIndexByte(a, ':'):]
+	}
+	return a
+}
+
 func runMain(raw json.RawMessage) (interface{}, error) {
 	var in mainIn
 	if err := json.Unmarshal(raw, &in); err != nil {
@@ -483,7 +510,7 @@ func runMain(raw json.RawMessage) (interface{}, error) {
 	}
 	out.Started = true
 	e.mu.Lock()
-	e.reached, e.uhost, e.uhdr, e.conn = false, "", nil, connOut{}
+	e.reached, e.uhost, e.uhdr, e.conn, e.interim = false, "", nil, connOut{}, in.Interim
 	e.mu.Unlock()
 
 	if in.H2 {
@@ -495,7 +522,7 @@ func runMain(raw json.RawMessage) (interface{}, error) {
 		if in.Listener == "https+tcp+sni" {
 			addr = p.sni
 		}
-		tc, err := tls.Dial("tcp", addr, &tls.Config{InsecureSkipVerify: true})
+		tc, err := tls.Dial("tcp", dialAddr(addr, in.V6), &tls.Config{InsecureSkipVerify: true})
 		if err != nil {
 			return nil, err
 		}
@@ -503,7 +530,7 @@ func runMain(raw json.RawMessage) (interface{}, error) {
 		out.Conn.TLS, out.Conn.TLSV, out.Conn.TLSC = true, st.Version, st.CipherSuite
 		c = tc
 	} else {
-		c, err = net.Dial("tcp", p.plain)
+		c, err = net.Dial("tcp", dialAddr(p.plain, in.V6))
 		if err != nil {
 			return nil, err
 		}
@@ -537,7 +564,7 @@ func runMainH2(in mainIn, p *fabioProc, path string, out *mainOut) (interface{},
 	if in.Host == "" {
 		return nil, errors.New("HTTP/2 needs an authority")
 	}
-	req, err := http.NewRequest("GET", "https://"+addr+path+"/x", nil)
+	req, err := http.NewRequest("GET", "https://"+dialAddr(addr, in.V6)+path+"/x", nil)
 	if err != nil {
 		return nil, err
 	}
@@ -597,7 +624,7 @@ func sendRaw(c net.Conn, path, host string, wire []wireHdr) (*http.Response, err
 	if _, err := c.Write([]byte(b.String())); err != nil {
 		return nil, err
 	}
-	resp, err := http.ReadResponse(bufio.NewReader(c), nil)
+	resp, err := readFinalResponse(bufio.NewReader(c))
 	if err != nil {
 		return nil, err
 	}
@@ -775,6 +802,8 @@ func genMain(r *hx.Rand, i int) interface{} {
 		in.Host = r.Pick(pHostChoices)
 	}
 	in.Listener = r.Pick([]string{"http", "http", "http", "https", "https", "https+tcp+sni"})
+	in.V6 = r.Chance(1, 4)
+	in.Interim = r.Chance(1, 8)
 	if in.Listener != "http" && r.Chance(1, 3) { // an HTTP/2 client
 		in.H2 = true
 		var w []wireHdr
@@ -807,6 +836,7 @@ func init() {
 		Corpus: []interface{}{
 			mainIn{Listener: "http", Host: "foo.com"},
 			mainIn{Listener: "https", Host: "foo.com"},
+			mainIn{Listener: "http", V6: true, Host: "[::1]:9999", Opts: full, Wire: []wireHdr{{"x-client-ip", sp("::2")}, {"X-Forwarded-For", sp("2001:db8::1")}}},
 			mainIn{Listener: "https+tcp+sni", Host: "foo.com", Opts: full, Wire: []wireHdr{{"x-tls", sp("off")}, {"x-client-ip", sp("6.6.6.6")}}},
 			// a plain listener runs with the TLS header configured: that is what removes a forged copy
 			mainIn{Listener: "http", Host: "foo.com", Opts: full,
